@@ -393,7 +393,7 @@ class PyModel:
         for i, (fid, snap) in enumerate(self.saves):
             if fid == f.fid:
                 self.work = dict(snap)
-                self.saves = self.saves[i:]
+                self.saves = self.saves[i + 1:]
                 return
         raise OutOfScope("no savepoint")
 
